@@ -7,7 +7,7 @@
    harness).  mherm / mpure / mpsd / mtrace: Hermitian, rho^2 = rho, x^dagger rho x >= 0 for all x,
    trace — on the n x n block. *)
 From Coq Require Import Reals List Lra.
-From MV Require Import Ops RInst Vec Cplx Mat CRing MatP Propagate PropagateP Rk4P.
+From MV Require Import Ops RInst Vec Cplx Mat CRing MatP Propagate PropagateP Rk4P Traj TrajP.
 Import ListNotations.
 Open Scope R_scope.
 
@@ -44,6 +44,27 @@ Theorem C02_rk4_trace_and_hermiticity :
   mherm n rho' /\ mtrace ROps n rho' = mtrace ROps n rho.
 Proof. intros. apply rk4_step_trace_herm; assumption. Qed.
 Print Assumptions C02_rk4_trace_and_hermiticity.
+
+(* the whole loop of TrajectorySH.simulate (Model/Traj.run: any number of passes of Traj.step, each
+   with its own threshold, electronics and eigh answer): hops and hop attempts never touch the
+   density matrix — after the run it is exactly the electronic-only product of exp steps — so it
+   is a valid state whatever the sequence of attempts, accepted or frustrated *)
+Theorem C02_full_run_density_matrix_valid :
+  forall n m dt poisson (ds : list (sdata (T:=R))) (s sf : tstate (T:=R)) atts,
+  run ROps n m dt poisson ds s = (sf, atts) ->
+  Forall (fun d => length (dlam d) = n /\ unitary n (mget ROps (dC d))) ds ->
+  prho sf = exp_steps n (map (fun d => (dlam d, dC d, dt)) ds) (prho s)
+  /\ (mherm n (prho s) -> mherm n (prho sf))
+  /\ mtrace ROps n (prho sf) = mtrace ROps n (prho s)
+  /\ (mpure n (prho s) -> mpure n (prho sf))
+  /\ (mpsd n (prho s) -> mpsd n (prho sf)).
+Proof.
+  intros n m dt poisson ds s sf atts Hrun Hall.
+  destruct (run_invariants n m dt poisson ds s sf atts Hrun) as (_ & _ & Hr & _).
+  split; [exact Hr|]. rewrite Hr. apply exp_steps_valid.
+  clear -Hall. induction Hall as [|d ds Hd _ IH]; cbn [map]; constructor; [exact Hd | exact IH].
+Qed.
+Print Assumptions C02_full_run_density_matrix_valid.
 
 (* PARTIAL: purity and positivity under 'linear-rk4' hold only to the accuracy of the RK4
    integrator (it is not unitary); not mechanised, measured by the harness.
